@@ -158,7 +158,59 @@ def m_sc_from_u16(ex, args, callee):
     return ex.err(Opaque('InvalidStatusCode'))
 
 
+hv_ok = z3.Function('hv_ok', StrSort, z3.BoolSort())     # "is a legal header value" for opaque strings
+
+
+def m_hname_try_from(ex, args, callee):
+    n = dv(args[0])
+    if isinstance(n, str):
+        if n and all(ch.isalnum() or ch in "!#$%&'*+-.^_`|~" for ch in n): return ex.ok(n.lower())
+        return ex.err(Opaque('InvalidHeaderName'))
+    if isinstance(n, Opaque) and n.tag == 'const': return ex.ok(hname(n))
+    raise Unsupported(f'HeaderName::try_from {n!r}')
+
+
+def m_hvalue_try_from(ex, args, callee):
+    v = dv(args[0])
+    if isinstance(v, HV): return ex.ok(v)
+    if isinstance(v, str):
+        if all((32 <= ord(ch) != 127) or ch == '\t' for ch in v): return ex.ok(HV(v))
+        return ex.err(Opaque('InvalidHeaderValue'))
+    if isinstance(v, SymStr):
+        if ex.truth(hv_ok(v.term)): return ex.ok(HV(v))
+        return ex.err(Opaque('InvalidHeaderValue'))
+    raise Unsupported(f'HeaderValue::try_from {v!r}')
+
+
+def m_hm_try_append(ex, args, callee):
+    hm = dv(args[0])
+    name = hname(args[1])
+    had = any(n == name for n, _ in hm.entries)
+    hm.entries.append((name, dv(args[2])))
+    return ex.ok(had)
+
+
+def m_hm_insert(ex, args, callee):
+    hm = dv(args[0])
+    name = hname(args[1])
+    old = [v for n, v in hm.entries if n == name]
+    if old:
+        i = [n for n, _ in hm.entries].index(name)
+        hm.entries = [(n, v) for n, v in hm.entries if n != name]
+        hm.entries.insert(i, (name, dv(args[2])))
+        return ex.some(old[0])
+    hm.entries.append((name, dv(args[2])))
+    return ex.none()
+
+
 MODELS = [
+    (r'<HeaderName as TryFrom<.*>>::try_from$|HeaderName::from_static$', m_hname_try_from),
+    (r'<HeaderValue as TryFrom<.*>>::try_from$|HeaderValue::from_str$|<HeaderValue as FromStr>::from_str$', m_hvalue_try_from),
+    (r'HeaderMap::try_append::|HeaderMap::<.*>::try_append::|HeaderMap::append::|HeaderMap::<.*>::append::', m_hm_try_append),
+    (r'HeaderMap::insert::|HeaderMap::<.*>::insert::', m_hm_insert),
+    (r'HeaderMap::new$|HeaderMap::<.*>::new$', lambda ex, a, c: HMap()),
+    (r'HeaderMap::reserve$|HeaderMap::<.*>::reserve$', lambda ex, a, c: Tup([])),
+    (r'HeaderMap::len$|HeaderMap::<.*>::len$', lambda ex, a, c: len(dv(a[0]).entries)),
     (r'Request::<.*>::headers$', m_headers),
     (r'HeaderMap::get::|HeaderMap::<.*>::get::', m_hm_get),
     (r'HeaderValue::to_str$', m_hv_to_str),
